@@ -41,10 +41,10 @@ WellFormed(o, S) ==
   /\ (o.op = "DelCert" /\ o.loc = "view" => o.c[1] \in S.cur.keys)
   /\ (o.op = "GetSigner" /\ o.t = "obj" => Enabled(o, S))
   /\ (o.op = "TouchIdentity" /\ o.i \notin S.cur.ids => o.k \in FreeSlots(S, o.i))
-  /\ (o.op = "ImportCert" => o.k \in S.cur.keys)
+  /\ (o.op = "ImportCert" => o.k \in S.cur.keys /\ ImpSlot(o)[1] = o.k /\ ImpSlot(o)[2] \in 2..CertN)
   /\ (o.op = "SetDefKey" => o.k[1] \in S.cur.ids)
   /\ (o.op = "SetDefCert" => o.c[1] \in S.cur.keys)
-  /\ (o.op = "GetSigner" /\ o.by = "cert" => o.c \in S.cur.certs \/ o.c[1] \notin S.cur.keys)
+  /\ (o.op = "GetSigner" /\ o.by = "cert" => OwnNamed(o.c) /\ (o.c \in S.cur.certs \/ o.c[1] \notin S.cur.keys))
 
 ResOk(o, r) == LET x == Plan(o, st).res IN
   /\ x.out = r.out
